@@ -503,6 +503,7 @@ impl<C: BgpConfig + Send> Session<C> {
             BgpMsg::Notification(m) => {
                 let tx = self.channel.clone();
                 let _ = tx.send(Message::NotificationMessage(m)).await;
+                self.handle_event(Event::NotifMsg).await?;
             }
             BgpMsg::RouteRefresh(_m) => {
                 debug!("got ROUTEREFRESH, not doing anything");
